@@ -1,6 +1,6 @@
 import DaskModel.Lemmas.ArrayReduce
 import DaskModel.Lemmas.BlockScan
-import DaskModel.Lemmas.BlellochTable
+import DaskModel.Lemmas.BlellochAll
 import DaskModel.Lemmas.TopK
 import DaskModel.Lemmas.GridReduce
 import Mathlib.Tactic.SplitIfs
@@ -536,24 +536,25 @@ theorem cum_sequential_keeps_chunks (blocks : List (List Int)) :
     (seqScan (· + ·) 0 blocks).map List.length = blocks.map List.length :=
   seqScan_lengths _ 0 blocks
 
-/-- dask's Blelloch schedule passes the (proved sound) interval checker for every `n_vals ≤ 32`
-    — kernel evaluation of a finite table (`Lemmas/BlellochTable.lean`), *not* the general statement. -/
-theorem schedOk_le_32 : ∀ n, n ≤ 32 → schedOk n = true := schedOk_table
+/-- **dask's Blelloch schedule passes the (proved sound) interval checker for every `n_vals`**
+    (`Lemmas/BlellochAll.lean`: invariants of the up-sweep and the down-sweep over powers of two). -/
+theorem blelloch_schedule_ok : ∀ n, schedOk n = true := schedOk_all
 
-/-- Full statement (`∀ n, schedOk n = true`) is validated by the harness for n ≤ 300, proved for n ≤ 32. -/
-def BlellochFullStatement : Prop := ∀ n, schedOk n = true
-
-/-- `cumsum(method="blelloch")` = NumPy for every chunking with at most 33 blocks on the scan axis
-    (`_partial`: the bound comes from `schedOk_le_32`; `blelloch_eq_scan` itself has no bound). -/
-theorem cumsum_blelloch_eq_numpy_partial (blocks : List (List Int)) (hn : blocks.length ≤ 33) :
+/-- `cumsum(method="blelloch")` = NumPy for **every** chunking (zero-length blocks included, any number of blocks) -/
+theorem cumsum_blelloch_eq_numpy (blocks : List (List Int)) :
     ∃ out, blelloch (· + ·) 0 blocks = some out ∧ out.flatten = scanIncl (· + ·) blocks.flatten ∧
       out.map List.length = blocks.map List.length :=
-  blelloch_eq_scan _ 0 isum_monoid blocks (schedOk_le_32 _ (by omega))
+  blelloch_eq_scan _ 0 isum_monoid blocks (schedOk_all _)
 
-theorem cumprod_blelloch_eq_numpy_partial (blocks : List (List Int)) (hn : blocks.length ≤ 33) :
+theorem cumprod_blelloch_eq_numpy (blocks : List (List Int)) :
     ∃ out, blelloch (· * ·) 1 blocks = some out ∧ out.flatten = scanIncl (· * ·) blocks.flatten ∧
       out.map List.length = blocks.map List.length :=
-  blelloch_eq_scan _ 1 iprod_monoid blocks (schedOk_le_32 _ (by omega))
+  blelloch_eq_scan _ 1 iprod_monoid blocks (schedOk_all _)
+
+/-- over any monoid -/
+theorem cum_blelloch_eq_numpy {α : Type} (op : α → α → α) (e : α) (h : IsMonoid op e) (blocks : List (List α)) :
+    ∃ out, blelloch op e blocks = some out ∧ out.flatten = scanIncl op blocks.flatten :=
+  let ⟨out, h1, h2, _⟩ := blelloch_eq_scan op e h blocks (schedOk_all _); ⟨out, h1, h2⟩
 
 /-- unconditional form: *if* the schedule checker accepts `n_vals`, Blelloch = NumPy (any monoid) -/
 theorem cum_blelloch_eq_numpy_of_schedOk {α : Type} (op : α → α → α) (e : α) (h : IsMonoid op e)
